@@ -452,7 +452,8 @@ func isRepeatedCodec(c plenccodec.Codec) bool {
 func execCodec(h *caseHdr, ev M) any {
 	out := M{"kind": "ok", "panic": false, "where": "", "msg": "", "merr": "", "uerr": "", "bytes": []any{}, "back": []any{},
 		"backUTC": true, "laws": []any{}, "desc": M{"have": false}, "cross": M{"have": false}, "sane": true,
-		"json": []any{}, "jsonable": M{"finite": true, "times": true, "utf8": true}}
+		"json": []any{}, "jsonable": M{"finite": true, "times": true, "utf8": true},
+		"byval": M{"have": false}}
 	var gt reflect.Type
 	var in reflect.Value
 	p := instanceFor(h)
@@ -488,6 +489,23 @@ func execCodec(h *caseHdr, ev M) any {
 		out["panic"], out["where"], out["msg"] = true, where, msg
 		return out
 	}
+	// the other calling convention: the value itself instead of a pointer to it (C01, C06)
+	byval := M{"have": true, "panic": false, "where": "", "merr": "", "uerr": "", "bytes": []any{}, "back": []any{}}
+	panicked, where, msg = guard(func() {
+		data, merr := p.Marshal(nil, in.Elem().Interface())
+		byval["merr"] = errStr(merr)
+		byval["bytes"] = abs.Bytes(data)
+		if merr != nil {
+			return
+		}
+		back := reflect.New(gt)
+		byval["uerr"] = errStr(p.Unmarshal(data, back.Interface()))
+		byval["back"] = abs.Project(h.T, back.Elem())
+	})
+	if panicked {
+		byval["panic"], byval["where"] = true, where
+	}
+	out["byval"] = byval
 	// C12: data written in the repeated-field form is decoded by an instance without ProtoCompatibleArrays
 	out["cross"] = M{"have": false}
 	if h.Cfg.ProtoArrays && out["merr"] == "" {
